@@ -17,6 +17,9 @@ FprsC(C) == {CompFpr[c] : c \in C}
 CarriersC(C, a) == {c \in C : a \in CompAliases[c]}
 FprsOKC(C, got) == got = FprsC(C)
 SelOKC(C, a, got) == IF CarriersC(C, a) = {} THEN got = "none" ELSE got \in CarriersC(C, a)
+\* an identifier that is an ENCRYPTED MESSAGE selects "a key that can decrypt it": when a secret carrier is held the selection is one of
+\* those; when only public carriers are held the recipient's public key is all there is to hand out (Sec = the secret components)
+SelDecOKC(C, a, got, Sec) == IF CarriersC(C, a) \cap Sec = {} THEN SelOKC(C, a, got) ELSE got \in CarriersC(C, a) \cap Sec
 HasOKC(C, a, got) == got = (CarriersC(C, a) # {})
 LenOKC(C, got) == got = Cardinality(C)     \* number of key objects (primaries and subkeys) held
 \* ---- the same for a set L of whole keys
